@@ -245,12 +245,19 @@ func (nm LNumber) Format(f fmt.State, c rune) {
 		formatInteger(f, false, uint64(int64(nm)), 8, false, false)
 	case 'x', 'X':
 		formatInteger(f, false, uint64(int64(nm)), 16, c == 'X', false)
-	case 'b', 'd', 'U':
+	case 'd', 'i':
+		// through formatInteger: Go's fmt prints nothing but padding for a zero with precision 0
+		// and so loses the sign that C's %+.0d and % .0d still write
+		v := int64(nm)
+		if v < 0 {
+			formatInteger(f, true, uint64(-v), 10, false, true)
+		} else {
+			formatInteger(f, false, uint64(v), 10, false, true)
+		}
+	case 'b', 'U':
 		defaultFormat(int64(nm), f, c)
 	case 'e', 'E', 'f', 'F', 'g', 'G':
 		defaultFormat(float64(nm), f, c)
-	case 'i':
-		defaultFormat(int64(nm), f, 'd')
 	default:
 		if isInteger(nm) {
 			defaultFormat(int64(nm), f, c)
